@@ -46,7 +46,10 @@ def mix(*xs):
 def key_uri(k, with_directives=True):
     """k: dict(scheme, res, comment, pp, val) -> the string a user passes to the cache."""
     if k["scheme"] == "sim":
-        base = "sim://bucket/" + k["res"]
+        # objects named private/... live in a second store that shares the sim:// scheme with the first one
+        base = ("sim://" if k["res"].startswith("private/") else "sim://bucket/") + k["res"]
+    elif k["scheme"] == "nosuch":
+        base = "nosuch://bucket/" + k["res"]  # a scheme no registered resource handles (typo, missing plug-in)
     elif k["scheme"] == "https":
         base = "https://host.example/" + k["res"]
     elif k["scheme"] == "chain":
@@ -371,6 +374,7 @@ class World:
         self._dt_saved = [(m, interpose.patch_datetime_in(m)) for m in (co, rr, fc)]
         self.sim_resource = build_sim_resource(self)
         self.chain_resource = build_sim_resource(self, prefix="chain://", chained=True)
+        self.private_resource = build_sim_resource(self, prefix="sim://", private=True)
 
     def _unpatch_modules(self):
         for m, saved in self._dt_saved:
@@ -388,7 +392,9 @@ class World:
         self.fc._ACTIVE_FILE_CACHES.clear()
 
     def _resources(self):
-        return [self.sim_resource, self.rr.RemoteResourceHTTPS(), self.rr.RemoteResourceLocal(), self.chain_resource]
+        # the private store comes first and shares the sim:// prefix; it claims only sim://private/...
+        return [self.private_resource, self.sim_resource, self.rr.RemoteResourceHTTPS(), self.rr.RemoteResourceLocal(),
+                self.chain_resource]
 
     def chain_download(self, uri, filepath, NotFound):
         """chain://: the object is obtained through the SECOND named cache (a 'raw' cache feeding a 'derived'
@@ -503,6 +509,8 @@ class World:
     def sim_download(self, uri, filepath, NotFound):
         # the resource sees the uri literally: stripping the "<<comment" is the cache's job
         res = uri.split("://", 1)[1].split("/", 1)[1]
+        if uri.startswith("sim://private/"):
+            res = "private/" + res
         key = self._attribute_key(filepath, res)
         self._note_fetch("sim", res.split("<<")[0], key)
         self.sched("net.req", uri, 0)
